@@ -885,6 +885,10 @@ func DumpTasks() string {
 
 var watchdogSecs = 120
 
+// WatchdogNote is printed by the watchdog (the harness driver stores the run
+// seed here so a hang can be replayed).
+var WatchdogNote string
+
 func startWatchdog(s *Sim) {
 	go func() {
 		last := int64(-1)
@@ -905,7 +909,7 @@ func startWatchdog(s *Sim) {
 			if idle >= watchdogSecs {
 				buf := make([]byte, 1<<20)
 				n := runtime.Stack(buf, true)
-				fmt.Fprintf(os.Stderr, "HARNESS-ERROR watchdog: no scheduling step for %ds (step %d)\n%s\n", watchdogSecs, b, buf[:n])
+				fmt.Fprintf(os.Stderr, "HARNESS-ERROR watchdog: no scheduling step for %ds (step %d) %s\n%s\nHARNESS-ERROR watchdog (see top of this dump) %s\n", watchdogSecs, b, WatchdogNote, buf[:n], WatchdogNote)
 				os.Exit(2)
 			}
 		}
